@@ -95,6 +95,8 @@ def run(ctx, chk, tier="quick"):
     )
     chk.assumptions = ["entity roots are the tables storm, zeta_interval, discrete_zeta, grid_time (from the property's state description)",
                        "when max/step is an integer the top level is never crossed under the half-open rule (documented numeric edge, not decided)"]
+    from .. import sqltypes
+    sqltypes.check(ctx, chk, "C13.O3", modules=("rise", "recession", "zeta_grid"), views=("storm_total_rise", "rising_curve_line_segment", "storm_total_rain_depth"))
     sch = ctx.schema
     types = view_column_types(sch, entity_types(sch))
 
